@@ -126,6 +126,12 @@ def run(ctx):
              'the heartbeat is not written to exactly the action execution '
              'whose id was reported', ctx.loc(uh))
 
+    # ---- R5 the checker thread survives a failing pass -------------------------
+    r5 = ctx.rule('R5', 'a failing pass does not end the heartbeat checker '
+                  'thread', 'GD (handlers)')
+    from mstatic.rules import shared as _sh2
+    _sh2.service_loops_survive(ctx, r5, which=('action_heartbeat_checker',))
+
     # ---- R2 batch isolation ----------------------------------------------------
     r2 = ctx.rule('R2', 'one broken action does not stop the batch; every '
                   'selected action is handled', 'GD')
